@@ -61,7 +61,9 @@ namespace detail
 		vec<3, float, lowp> S1 = sqrt(ColorLinear);
 		vec<3, float, lowp> S2 = sqrt(S1);
 		vec<3, float, lowp> S3 = sqrt(S2);
-		return 0.662002687f * S1 + 0.684122060f * S2 - 0.323583601f * S3 - 0.0225411470f * ColorLinear;
+		// the polynomial dips below zero for ColorLinear < ~7.7e-4: keep the result inside [0, 1]
+		vec<3, float, lowp> const Result(0.662002687f * S1 + 0.684122060f * S2 - 0.323583601f * S3 - 0.0225411470f * ColorLinear);
+		return vec<3, float, lowp>(Result.x < 0.0f ? 0.0f : Result.x, Result.y < 0.0f ? 0.0f : Result.y, Result.z < 0.0f ? 0.0f : Result.z);
 	}
 
 	template<length_t L, typename T, qualifier Q>
